@@ -226,6 +226,12 @@ class Program(object):
                 return str(value)
             if isinstance(value, six.string_types):
                 return '"{}"'.format(escape(value))
+            if isinstance(value, float):
+                text = repr(value)
+                if "e" in text and "." not in text:
+                    # `1e-05`: the parser reads a number with an exponent only when it has a decimal point
+                    text = text.replace("e", ".0e")
+                return text
             else:
                 return str(value)
 
